@@ -7,10 +7,12 @@ EXTEND = {
         # the aggregator's epoch service
         "C06.C06_service_invariant", "C06.C06_service_coherent", "C06.C06_service_ok_coherent",
         "C06.C06_service_lists_honest", "C06.C06_service_function_of_set",
+        "C06.C06_service_informed_keys", "C06.C06_service_live_is_fresh",
         "C06.C06_service_failed_update_counterexample", "C06.C06_service_stale_snapshot_counterexample",
         "RegPaths.build_perm", "RegPaths.build_eq", "RegPaths.build_key", "RegPaths.signerPath_perm",
         "RegPaths.associate_perm", "RegService.run_inv", "RegService.run_coherent", "RegService.step_ok_coherent",
         "RegService.run_dataWF", "RegService.keys_function_of_set", "RegService.updateNext_keeps_snapshot",
+        "RegService.informed_keys", "RegService.live_agrees_with_fresh",
     ],
     "anchors": ["mithril-aggregator/src/services/epoch_service.rs", "mithril-signer/src/services/single_signer.rs",
                 "mithril-signer/src/services/epoch_service.rs", "mithril-client/src/message.rs",
